@@ -10,6 +10,8 @@ import ChemModel.Model.EqSolve
 
 namespace ChemModel.EqSolve
 
+set_option linter.unusedSectionVars false
+
 variable {α : Type} [Field α] [LinearOrder α] [IsStrictOrderedRing α]
 
 /-! ### the sanity check -/
@@ -70,5 +72,750 @@ theorem resultIsSane_eq_ok_true_iff (rtol : α) (comps : List (Comp α)) (init x
       rw [any_neg_eq_false_iff, tooMuch_eq_false_iff rtol x ub hl]
       simp [hl]
     · simp [hl, throw, throwThe, MonadExceptOf.throw]
+
+/-! ### elemental upper bounds -/
+
+theorem listSum_eq_sum (l : List α) : listSum l = l.sum := by
+  induction l with
+  | nil => simp [listSum]
+  | cons a l ih => simpa [listSum] using ih
+
+theorem mapM_ok {β γ : Type} {f : β → Except Err γ} : ∀ (l : List β) (r : List γ), l.mapM f = .ok r →
+    List.Forall₂ (fun a b => f a = .ok b) l r
+  | [], r, h => by
+    simp only [List.mapM_nil, pure, Except.pure, Except.ok.injEq] at h
+    subst h; exact List.Forall₂.nil
+  | a :: l, r, h => by
+    rw [List.mapM_cons] at h
+    cases hfa : f a with
+    | error e => simp [hfa, bind, Except.bind] at h
+    | ok b =>
+      cases hl : l.mapM f with
+      | error e => simp [hfa, hl, bind, Except.bind] at h
+      | ok bs =>
+        simp only [hfa, hl, bind, Except.bind, pure, Except.pure, Except.ok.injEq] at h
+        subst h
+        exact List.Forall₂.cons hfa (mapM_ok l bs hl)
+
+theorem ite_throw_ok {γ : Type} {c : Prop} [Decidable c] {e : Err} {v w : γ} :
+    (if c then (throw e : Except Err γ) else pure v) = .ok w ↔ ¬c ∧ v = w := by
+  by_cases h : c <;> simp [h, throw, throwThe, MonadExceptOf.throw, pure, Except.pure]
+
+theorem listMin_le (a : α) (l : List α) : listMin a l ≤ a ∧ ∀ b ∈ l, listMin a l ≤ b := by
+  induction l generalizing a with
+  | nil => simp [listMin]
+  | cons b l ih =>
+    simp only [listMin, List.mem_cons, forall_eq_or_imp]
+    obtain ⟨h1, h2⟩ := ih (if b < a then b else a)
+    refine ⟨?_, ?_, h2⟩
+    · by_cases hba : b < a
+      · simp only [hba, ↓reduceIte] at h1 ⊢
+        exact le_trans h1 hba.le
+      · simp only [hba, ↓reduceIte] at h1 ⊢
+        exact h1
+    · by_cases hba : b < a
+      · simp only [hba, ↓reduceIte] at h1 ⊢
+        exact h1
+      · simp only [hba, ↓reduceIte] at h1 ⊢
+        exact le_trans h1 (not_lt.mp hba)
+
+theorem listMin_mem (a : α) (l : List α) : listMin a l = a ∨ listMin a l ∈ l := by
+  induction l generalizing a with
+  | nil => simp [listMin]
+  | cons b l ih =>
+    simp only [listMin, List.mem_cons]
+    rcases ih (if b < a then b else a) with h | h
+    · by_cases hba : b < a
+      · simp only [hba, ↓reduceIte] at h ⊢
+        exact Or.inr (Or.inl h)
+      · simp only [hba, ↓reduceIte] at h ⊢
+        exact Or.inl h
+    · exact Or.inr (Or.inr h)
+
+/-- what `boundOf` returns: an attained minimum of `tot key / coeff` over the non-charge items -/
+theorem boundOf_some (tot : Nat → α) (comp : Comp α) (b : α) (h : boundOf tot comp = .ok (some b)) :
+    (∀ p ∈ comp, p.1 ≠ 0 → p.2 ≠ 0 ∧ b ≤ tot p.1 / p.2) ∧ ∃ p ∈ comp, p.1 ≠ 0 ∧ p.2 ≠ 0 ∧ b = tot p.1 / p.2 := by
+  unfold boundOf at h
+  simp only [bind, Except.bind] at h
+  split at h
+  · cases h
+  · rename_i ch hm
+    have hf := mapM_ok _ _ hm
+    have hlen := hf.length_eq
+    cases ch with
+    | nil => simp [pure, Except.pure] at h
+    | cons a l =>
+      simp only [pure, Except.pure, Except.ok.injEq, Option.some.injEq] at h
+      subst h
+      have key : ∀ p ∈ comp, p.1 ≠ 0 → p.2 ≠ 0 ∧ tot p.1 / p.2 ∈ a :: l := by
+        intro p hp hk
+        have hpm : p ∈ comp.filter fun p => p.1 ≠ 0 := by simp [List.mem_filter, hp, hk]
+        obtain ⟨i, hi, hpi⟩ := List.getElem_of_mem hpm
+        have := (List.forall₂_iff_get.mp hf).2 i (by simpa using hi) (by simp at hlen hi ⊢; omega)
+        simp only [List.get_eq_getElem] at this
+        rw [ite_throw_ok] at this
+        rw [hpi] at this
+        exact ⟨by simpa using this.1, this.2 ▸ List.getElem_mem _⟩
+      have conv : ∀ v ∈ a :: l, ∃ p ∈ comp, p.1 ≠ 0 ∧ p.2 ≠ 0 ∧ v = tot p.1 / p.2 := by
+        intro v hv
+        obtain ⟨i, hi, rfl⟩ := List.getElem_of_mem hv
+        have hi' : i < (List.filter (fun p => decide (p.1 ≠ 0)) comp).length := by
+          omega
+        have := (List.forall₂_iff_get.mp hf).2 i (by simpa using hi') (by simpa using hi)
+        simp only [List.get_eq_getElem] at this
+        rw [ite_throw_ok] at this
+        have hmem' := List.mem_filter.mp (List.getElem_mem hi')
+        exact ⟨_, hmem'.1, by simpa using hmem'.2, by simpa using this.1, this.2.symm⟩
+      refine ⟨fun p hp hk => ?_, ?_⟩
+      · obtain ⟨h0, hm'⟩ := key p hp hk
+        refine ⟨h0, ?_⟩
+        rcases List.mem_cons.mp hm' with h | h
+        · rw [h]; exact (listMin_le a l).1
+        · exact (listMin_le a l).2 _ h
+      · rcases listMin_mem a l with h | h
+        · rw [h]; exact conv a (by simp)
+        · exact conv _ (List.mem_cons_of_mem _ h)
+
+theorem compositionConc_ge (comps : List (Comp α)) (y : List α) (hy : ∀ v ∈ y, 0 ≤ v)
+    (hc : ∀ comp ∈ comps, ∀ p ∈ comp, p.1 ≠ 0 → 0 ≤ p.2)
+    (i : Nat) (hi : i < comps.length) (hiy : i < y.length) (p : Nat × α) (hp : p ∈ comps[i]) (hk : p.1 ≠ 0) :
+    p.2 * y[i] ≤ compositionConc comps y p.1 := by
+  unfold compositionConc
+  simp only [listSum_eq_sum, Nat.cast_zero]
+  have inner_nonneg : ∀ (conc : α) (comp : Comp α), 0 ≤ conc → comp ∈ comps →
+      ∀ v ∈ comp.map (fun (q : Nat × α) => if q.1 = p.1 ∧ q.1 ≠ 0 then q.2 * conc else 0), 0 ≤ v := by
+    intro conc comp hconc hcomp v hv
+    obtain ⟨q, hq, rfl⟩ := List.mem_map.mp hv
+    by_cases hqk : q.1 = p.1 ∧ q.1 ≠ 0
+    · rw [if_pos hqk]
+      exact mul_nonneg (hc comp hcomp q hq hqk.2) hconc
+    · rw [if_neg hqk]
+  -- step 2: the item's own term is bounded by the inner sum of its substance
+  have h2 : p.2 * y[i] ≤ ((comps[i]).map (fun (q : Nat × α) => if q.1 = p.1 ∧ q.1 ≠ 0 then q.2 * y[i] else 0)).sum := by
+    apply List.single_le_sum (inner_nonneg y[i] comps[i] (hy _ (List.getElem_mem _)) (List.getElem_mem _))
+    refine List.mem_map.mpr ⟨p, hp, ?_⟩
+    simp [hk]
+  -- step 1: that inner sum is one of the non-negative terms of the outer sum
+  refine le_trans h2 ?_
+  apply List.single_le_sum
+  · intro v hv
+    obtain ⟨⟨conc, comp⟩, hz, rfl⟩ := List.mem_map.mp hv
+    have hz' := List.of_mem_zip hz
+    exact List.sum_nonneg (inner_nonneg conc comp (hy _ hz'.1) hz'.2)
+  · refine List.mem_map.mpr ⟨(y[i], comps[i]), ?_, rfl⟩
+    rw [List.mem_iff_getElem]
+    exact ⟨i, by simp [hi, hiy], by simp⟩
+
+/-- `upper_bound_valid`: no non-negative state with the same element totals exceeds the bound -/
+theorem upperConcBounds_valid (comps : List (Comp α)) (init y : List α) (ub : List (Option α))
+    (hub : upperConcBounds comps init = .ok ub) (hylen : y.length = comps.length)
+    (hy : ∀ v ∈ y, 0 ≤ v) (hc : ∀ comp ∈ comps, ∀ p ∈ comp, p.1 ≠ 0 → 0 ≤ p.2)
+    (htot : ∀ k, k ≠ 0 → compositionConc comps y k = compositionConc comps init k)
+    (i : Nat) (hi : i < comps.length) (b : α) (hb : ub[i]? = some (some b))
+    (hpos : ∀ p ∈ comps[i], p.1 ≠ 0 → 0 < p.2) :
+    y[i]'(hylen ▸ hi) ≤ b := by
+  unfold upperConcBounds at hub
+  split_ifs at hub with hl
+  · have hf := mapM_ok _ _ hub
+    have hlen := hf.length_eq
+    have hiu : i < ub.length := by omega
+    have hbi := (List.forall₂_iff_get.mp hf).2 i hi hiu
+    simp only [List.get_eq_getElem] at hbi
+    have hbe : ub[i] = some b := by
+      rw [List.getElem?_eq_getElem hiu] at hb
+      exact Option.some.inj hb
+    rw [hbe] at hbi
+    obtain ⟨_, p, hp, hk, _, hbp⟩ := boundOf_some _ _ _ hbi
+    have hge := compositionConc_ge comps y hy hc i hi (hylen ▸ hi) p hp hk
+    rw [htot p.1 hk] at hge
+    rw [hbp, le_div_iff₀ (hpos p hp hk)]
+    linarith [mul_comm p.2 (y[i]'(hylen ▸ hi))]
+
+/-! ### stoichiometry helpers, `dissolved` -/
+
+theorem Rxn.net_eq_netX (r : Rxn) (k : Nat) : r.net k = r.netX k := by
+  unfold Rxn.net Rxn.netX; omega
+
+theorem netStoich_length (ns : Nat) (r : Rxn) : (netStoich ns r).length = ns := by simp [netStoich]
+
+theorem netStoich_getElem (ns : Nat) (r : Rxn) (k : Nat) (hk : k < (netStoich ns r).length) :
+    (netStoich ns r)[k] = r.net k := by simp [netStoich]
+
+theorem xprec_length (phases : List Nat) (r : Rxn) (x : Bool) :
+    (xprecipitateStoich phases r x).length = phases.length := by simp [xprecipitateStoich]
+
+theorem xprec_true_getElem (phases : List Nat) (r : Rxn) (k : Nat) (hk : k < phases.length) :
+    (xprecipitateStoich phases r true)[k]'(by rw [xprec_length]; exact hk) =
+      if phases[k] > 0 then r.netX k else 0 := by
+  simp only [xprecipitateStoich, List.getElem_map, List.getElem_range, List.getElem?_eq_getElem hk]
+  by_cases hp : phases[k] > 0 <;> simp [hp]
+
+/-- `findNonzero` started with `found = -1`: either nothing non-zero (`-1`) or the unique non-zero position;
+    started with a position already found it only succeeds when everything else is zero -/
+theorem findNonzero_spec : ∀ (net : List Int) (i : Nat) (found f : Int), findNonzero net i found = .ok f →
+    (found ≠ -1 → f = found ∧ ∀ n ∈ net, n = 0) ∧
+    (found = -1 → (f = -1 ∧ ∀ n ∈ net, n = 0) ∨
+      ∃ j, ∃ hj : j < net.length, f = ((i + j : Nat) : Int) ∧ net[j] ≠ 0 ∧ ∀ j' (hj' : j' < net.length), j' ≠ j → net[j'] = 0)
+  | [], i, found, f, h => by
+    simp only [findNonzero, pure, Except.pure, Except.ok.injEq] at h
+    subst h
+    simp
+  | n :: rest, i, found, f, h => by
+    unfold findNonzero at h
+    by_cases hn : n ≠ 0
+    · rw [if_pos hn] at h
+      by_cases hf : found = -1
+      · rw [if_pos hf] at h
+        have ih := (findNonzero_spec rest (i + 1) (i : Int) f h).1 (by omega)
+        refine ⟨fun hne => absurd hf hne, fun _ => Or.inr ⟨0, by simp, by simpa using ih.1, by simpa using hn, ?_⟩⟩
+        intro j' hj' hne
+        cases j' with
+        | zero => exact absurd rfl hne
+        | succ j'' => simpa using ih.2 _ (List.getElem_mem (by simpa using hj'))
+      · rw [if_neg hf] at h
+        simp [throw, throwThe, MonadExceptOf.throw] at h
+    · rw [if_neg hn] at h
+      have hn0 : n = 0 := by simpa using hn
+      have ih := findNonzero_spec rest (i + 1) found f h
+      refine ⟨fun hne => ?_, fun hf => ?_⟩
+      · obtain ⟨h1, h2⟩ := ih.1 hne
+        exact ⟨h1, by simpa [hn0] using h2⟩
+      · rcases ih.2 hf with ⟨h1, h2⟩ | ⟨j, hj, h1, h2, h3⟩
+        · exact Or.inl ⟨h1, by simpa [hn0] using h2⟩
+        · refine Or.inr ⟨j + 1, by simpa using hj, by rw [h1]; push_cast; ring, by simpa using h2, ?_⟩
+          intro j' hj' hne
+          cases j' with
+          | zero => simpa using hn0
+          | succ j'' => simpa using h3 j'' (by simpa using hj') (by omega)
+
+theorem pyIndex_nonneg {β : Type} (l : List β) (i : Int) (h : 0 ≤ i) : pyIndex l i = l[i.toNat]? := by
+  simp [pyIndex, h]
+
+theorem pyIndex_neg_one {β : Type} (l : List β) : pyIndex l (-1) = l[l.length - 1]? ∨ pyIndex l (-1) = none := by
+  unfold pyIndex
+  by_cases h : 1 ≤ l.length <;> simp [h]
+
+/-- the result of `precipitate_stoich`: `net` is the precipitate-only stoichiometry; a non-zero coefficient `s` sits at the
+    unique position `idx ≥ 0` of a substance with `phase_idx > 0` whose net coefficient is `s`; otherwise `s = 0`. -/
+theorem precipitateStoich_spec (phases : List Nat) (r : Rxn) (net : List Int) (s idx : Int)
+    (h : precipitateStoich phases r = .ok (net, s, idx)) :
+    net = xprecipitateStoich phases r true ∧
+    (s ≠ 0 → 0 ≤ idx ∧ ∃ hk : idx.toNat < phases.length, phases[idx.toNat] > 0 ∧ r.net idx.toNat = s ∧
+      ∀ j (hj : j < phases.length), j ≠ idx.toNat → phases[j] > 0 → r.net j = 0) := by
+  unfold precipitateStoich at h
+  simp only [bind, Except.bind] at h
+  split at h
+  · cases h
+  · rename_i f hf
+    split at h
+    · simp [throw, throwThe, MonadExceptOf.throw] at h
+    · rename_i s' hs'
+      simp only [pure, Except.pure, Except.ok.injEq, Prod.mk.injEq] at h
+      obtain ⟨rfl, rfl, rfl⟩ := h
+      refine ⟨rfl, fun hs => ?_⟩
+      have spec := (findNonzero_spec _ 0 (-1) f hf).2 rfl
+      rcases spec with ⟨h1, h2⟩ | ⟨j, hj, h1, h2, h3⟩
+      · -- nothing non-zero: the entry read is 0
+        exfalso
+        subst h1
+        rcases pyIndex_neg_one (xprecipitateStoich phases r true) with h | h
+        · rw [h] at hs'
+          exact hs (h2 _ (List.mem_of_getElem? hs'))
+        · rw [h] at hs'; cases hs'
+      · have hjl : j < phases.length := by simpa [xprec_length] using hj
+        have hf0 : f = (j : Int) := by simpa using h1
+        subst hf0
+        simp only [Int.toNat_natCast]
+        refine ⟨by omega, hjl, ?_⟩
+        rw [xprec_true_getElem phases r j hjl] at h2
+        have hpos : phases[j] > 0 := by
+          by_contra hp
+          simp [hp] at h2
+        refine ⟨hpos, ?_, ?_⟩
+        · rw [pyIndex_nonneg _ _ (by omega)] at hs'
+          simp only [Int.toNat_natCast] at hs'
+          rw [List.getElem?_eq_getElem hj] at hs'
+          have := Option.some.inj hs'
+          rw [xprec_true_getElem phases r j hjl, if_pos hpos] at this
+          rw [Rxn.net_eq_netX]; exact this
+        · intro j' hj' hne hp
+          have := h3 j' (by simpa [xprec_length] using hj') hne
+          rw [xprec_true_getElem phases r j' hj', if_pos hp] at this
+          rw [Rxn.net_eq_netX]; exact this
+
+/-- scalar product of a balance row with a concentration vector -/
+def dot (b c : List α) : α := (List.zipWith (· * ·) b c).sum
+
+theorem dot_sub (f : α) : ∀ (b c : List α) (net : List Int), c.length = net.length →
+    dot b (List.zipWith (fun ci ni => ci - f * ((ni : Int) : α)) c net) =
+      dot b c - f * dot b (net.map fun n => ((n : Int) : α))
+  | [], _, _, _ => by simp [dot]
+  | _ :: _, [], [], _ => by simp [dot]
+  | _ :: _, [], _ :: _, h => by simp at h
+  | _ :: _, _ :: _, [], h => by simp at h
+  | b :: bs, c :: cs, n :: ns, h => by
+    have ih := dot_sub f bs cs ns (by simpa using h)
+    simp only [dot, List.zipWith_cons_cons, List.sum_cons, List.map_cons] at ih ⊢
+    rw [ih]; ring
+
+/-- one `dissolved` iteration, unfolded -/
+theorem dissolveStep_spec (phases : List Nat) (c c' : List α) (r : Rxn) (h : dissolveStep phases c r = .ok c') :
+    (hasPrecipitates phases r = .ok false ∧ c' = c) ∨
+    (hasPrecipitates phases r = .ok true ∧ ∃ net s idx cs, precipitateStoich phases r = .ok (net, s, idx) ∧ s ≠ 0 ∧
+      pyIndex c idx = some cs ∧ c.length = phases.length ∧
+      c' = List.zipWith (fun ci ni => ci - cs / ((s : Int) : α) * ((ni : Int) : α)) c (netStoich phases.length r)) := by
+  unfold dissolveStep at h
+  simp only [bind, Except.bind] at h
+  split at h
+  · cases h
+  · rename_i hp hhp
+    cases hp with
+    | false =>
+      simp only [Bool.false_eq_true, ↓reduceIte, pure, Except.pure, Except.ok.injEq] at h
+      exact Or.inl ⟨hhp, h.symm⟩
+    | true =>
+      simp only [↓reduceIte] at h
+      split at h
+      · cases h
+      · rename_i v hv
+        obtain ⟨net, s, idx⟩ := v
+        simp only at h
+        split at h
+        · simp [throw, throwThe, MonadExceptOf.throw] at h
+        · rename_i cs hcs
+          split_ifs at h with hs hl
+          · simp only [pure, Except.pure, Except.ok.injEq] at h
+            refine Or.inr ⟨hhp, net, s, idx, cs, hv, hs, hcs, ?_, h.symm⟩
+            rw [netStoich_length] at hl
+            exact not_not.mp hl
+
+theorem dissolveStep_length (phases : List Nat) (c c' : List α) (r : Rxn) (h : dissolveStep phases c r = .ok c') :
+    c'.length = c.length := by
+  rcases dissolveStep_spec phases c c' r h with ⟨_, rfl⟩ | ⟨_, net, s, idx, cs, _, _, _, hl, rfl⟩
+  · rfl
+  · simp [netStoich_length, hl]
+
+theorem dissolveStep_dot (phases : List Nat) (c c' : List α) (r : Rxn) (h : dissolveStep phases c r = .ok c')
+    (b : List α) (hb : hasPrecipitates phases r = .ok true →
+      dot b ((netStoich phases.length r).map fun n => ((n : Int) : α)) = 0) :
+    dot b c' = dot b c := by
+  rcases dissolveStep_spec phases c c' r h with ⟨_, rfl⟩ | ⟨hp, net, s, idx, cs, _, _, _, hl, rfl⟩
+  · rfl
+  · rw [dot_sub _ b c _ (by rw [netStoich_length]; exact hl), hb hp]; ring
+
+/-- a step zeroes its own solid and keeps every other substance of a non-zero phase that was already zero -/
+theorem dissolveStep_zero (phases : List Nat) (c c' : List α) (r : Rxn) (h : dissolveStep phases c r = .ok c')
+    (j : Nat) (hj : j < phases.length) (hph : phases[j] > 0) :
+    (c[j]? = some 0 → c'[j]? = some 0) ∧
+    (hasPrecipitates phases r = .ok true → ∀ net s idx, precipitateStoich phases r = .ok (net, s, idx) →
+      j = idx.toNat → c'[j]? = some 0) := by
+  rcases dissolveStep_spec phases c c' r h with ⟨hp, rfl⟩ | ⟨hp, net, s, idx, cs, hps, hs, hcs, hl, rfl⟩
+  · exact ⟨id, fun hp' => by rw [hp] at hp'; cases hp'⟩
+  · obtain ⟨_, hspec⟩ := precipitateStoich_spec phases r net s idx hps
+    obtain ⟨hidx, hk, hphk, hnet, hoth⟩ := hspec hs
+    have hjc : j < c.length := by omega
+    have hjn : j < (netStoich phases.length r).length := by rw [netStoich_length]; exact hj
+    have hget : (List.zipWith (fun ci ni => ci - cs / ((s : Int) : α) * ((ni : Int) : α)) c (netStoich phases.length r))[j]? =
+        some (c[j] - cs / ((s : Int) : α) * ((r.net j : Int) : α)) := by
+      rw [List.getElem?_zipWith, List.getElem?_eq_getElem hjc, List.getElem?_eq_getElem hjn, netStoich_getElem]
+    have hsα : ((s : Int) : α) ≠ 0 := by exact_mod_cast hs
+    have own : j = idx.toNat → (List.zipWith (fun ci ni => ci - cs / ((s : Int) : α) * ((ni : Int) : α)) c
+        (netStoich phases.length r))[j]? = some 0 := by
+      intro hji
+      rw [hget]
+      rw [pyIndex_nonneg _ _ hidx, ← hji, List.getElem?_eq_getElem hjc] at hcs
+      have hcs' : c[j] = cs := Option.some.inj hcs
+      subst hji
+      rw [hnet, hcs']
+      congr 1
+      field_simp
+      ring
+    refine ⟨fun hc0 => ?_, fun _ net' s' idx' hps' hji => ?_⟩
+    · by_cases hji : j = idx.toNat
+      · exact own hji
+      · rw [hget, hoth j hj hji hph]
+        rw [List.getElem?_eq_getElem hjc] at hc0
+        simp [Option.some.inj hc0]
+    · rw [hps] at hps'
+      simp only [Except.ok.injEq, Prod.mk.injEq] at hps'
+      obtain ⟨_, _, rfl⟩ := hps'
+      exact own hji
+
+theorem dissolved_length (phases : List Nat) : ∀ (rxns : List Rxn) (c c' : List α),
+    dissolved phases rxns c = .ok c' → c'.length = c.length
+  | [], c, c', h => by
+    simp only [dissolved, pure, Except.pure, Except.ok.injEq] at h
+    rw [h]
+  | r :: rs, c, c', h => by
+    simp only [dissolved, bind, Except.bind] at h
+    split at h
+    · cases h
+    · rename_i c1 h1
+      rw [dissolved_length phases rs c1 c' h, dissolveStep_length phases c c1 r h1]
+
+theorem dissolved_dot (phases : List Nat) (b : List α) : ∀ (rxns : List Rxn) (c c' : List α),
+    dissolved phases rxns c = .ok c' →
+    (∀ r ∈ rxns, hasPrecipitates phases r = .ok true →
+      dot b ((netStoich phases.length r).map fun n => ((n : Int) : α)) = 0) →
+    dot b c' = dot b c
+  | [], c, c', h, _ => by
+    simp only [dissolved, pure, Except.pure, Except.ok.injEq] at h
+    rw [h]
+  | r :: rs, c, c', h, hb => by
+    simp only [dissolved, bind, Except.bind] at h
+    split at h
+    · cases h
+    · rename_i c1 h1
+      rw [dissolved_dot phases b rs c1 c' h (fun r' hr' => hb r' (List.mem_cons_of_mem _ hr')),
+        dissolveStep_dot phases c c1 r h1 b (hb r (by simp))]
+
+theorem dissolved_keeps_zero (phases : List Nat) (j : Nat) (hj : j < phases.length) (hph : phases[j] > 0) :
+    ∀ (rxns : List Rxn) (c c' : List α), dissolved phases rxns c = .ok c' → c[j]? = some 0 → c'[j]? = some 0
+  | [], c, c', h, h0 => by
+    simp only [dissolved, pure, Except.pure, Except.ok.injEq] at h
+    rw [← h]; exact h0
+  | r :: rs, c, c', h, h0 => by
+    simp only [dissolved, bind, Except.bind] at h
+    split at h
+    · cases h
+    · rename_i c1 h1
+      exact dissolved_keeps_zero phases j hj hph rs c1 c' h ((dissolveStep_zero phases c c1 r h1 j hj hph).1 h0)
+
+theorem dissolved_zeroes (phases : List Nat) : ∀ (rxns : List Rxn) (c c' : List α),
+    dissolved phases rxns c = .ok c' →
+    ∀ r ∈ rxns, hasPrecipitates phases r = .ok true → ∀ net s idx, precipitateStoich phases r = .ok (net, s, idx) →
+      c'[idx.toNat]? = some 0
+  | [], _, _, _, r, hr => by simp at hr
+  | r0 :: rs, c, c', h, r, hr => by
+    intro hp net s idx hps
+    simp only [dissolved, bind, Except.bind] at h
+    split at h
+    · cases h
+    · rename_i c1 h1
+      rcases List.mem_cons.mp hr with rfl | hr'
+      · -- the step for `r` itself zeroes its solid; later steps keep it
+        rcases dissolveStep_spec phases c c1 r h1 with ⟨hp', _⟩ | ⟨_, net', s', idx', cs, hps', hs', _, _, _⟩
+        · rw [hp] at hp'; cases hp'
+        · rw [hps] at hps'
+          simp only [Except.ok.injEq, Prod.mk.injEq] at hps'
+          obtain ⟨rfl, rfl, rfl⟩ := hps'
+          obtain ⟨_, hspec⟩ := precipitateStoich_spec phases r net s idx hps
+          obtain ⟨_, hk, hphk, _, _⟩ := hspec hs'
+          have hz := (dissolveStep_zero phases c c1 r h1 idx.toNat hk hphk).2 hp net s idx hps rfl
+          exact dissolved_keeps_zero phases idx.toNat hk hphk rs c1 c' h hz
+      · exact dissolved_zeroes phases rs c1 c' h r hr' hp net s idx hps
+
+/-! ### equilibrium quotient, switch conditions -/
+
+theorem npow_eq_pow (x : α) (n : Nat) : Num.npow x n = x ^ n := by
+  induction n with
+  | zero => simp [Num.npow]
+  | succ n ih => simp [Num.npow, ih, pow_succ]
+
+theorem pyPow_ok (x : α) (n : Int) (v : α) (h : pyPow x n = .ok v) : v = x ^ n ∧ (x = 0 → 0 ≤ n) := by
+  unfold pyPow at h
+  by_cases hn : 0 ≤ n
+  · simp only [hn, ↓reduceIte, pure, Except.pure, Except.ok.injEq] at h
+    refine ⟨?_, fun _ => hn⟩
+    rw [← h, npow_eq_pow]
+    conv_rhs => rw [← Int.toNat_of_nonneg hn]
+    exact (zpow_natCast x n.toNat).symm
+  · simp only [hn, ↓reduceIte, Nat.cast_zero, Nat.cast_one] at h
+    by_cases hx : x = 0
+    · simp [hx, throw, throwThe, MonadExceptOf.throw] at h
+    · simp only [hx, ↓reduceIte, pure, Except.pure, Except.ok.injEq] at h
+      refine ⟨?_, fun h0 => absurd h0 hx⟩
+      rw [← h, npow_eq_pow]
+      have : n = -((n.natAbs : Nat) : Int) := by omega
+      conv_rhs => rw [this]
+      rw [zpow_neg, zpow_natCast, one_div]
+
+/-- the mathematical reading of `equilibrium_quotient`: `∏ cᵢ ^ νᵢ` -/
+def quotient (concs : List α) (stoich : List Int) : α := (List.zipWith (fun c (n : Int) => c ^ n) concs stoich).prod
+
+theorem eqQuotientGo_ok : ∀ (stoich : List Int) (concs : List α) (tot v : α),
+    eqQuotientGo tot stoich concs = .ok v → v = tot * quotient concs stoich
+  | [], _, tot, v, h => by
+    simp only [eqQuotientGo, pure, Except.pure, Except.ok.injEq] at h
+    simp [quotient, h]
+  | _ :: _, [], tot, v, h => by
+    simp only [eqQuotientGo, pure, Except.pure, Except.ok.injEq] at h
+    simp [quotient, h]
+  | n :: ss, c :: cs, tot, v, h => by
+    simp only [eqQuotientGo, bind, Except.bind] at h
+    split at h
+    · cases h
+    · rename_i p hp
+      have := eqQuotientGo_ok ss cs (tot * p) v h
+      rw [this, (pyPow_ok c n p hp).1]
+      simp only [quotient, List.zipWith_cons_cons, List.prod_cons]
+      ring
+
+theorem eqQuotient_ok (concs : List α) (stoich : List Int) (v : α) (h : eqQuotient concs stoich = .ok v) :
+    v = quotient concs stoich := by
+  have := eqQuotientGo_ok stoich concs _ v h
+  simpa using this
+
+theorem fwCond_spec (rtol : α) (phases : List Nat) (rxns : List Rxn) (r : Rxn) (k : α) (x : List α) (b : Bool)
+    (h : fwCond rtol phases rxns r k x = .ok b) :
+    ∃ net s idx d q, precipitateStoich phases r = .ok (net, s, idx) ∧ dissolved phases rxns x = .ok d ∧
+      rxnQ phases r d = .ok q ∧
+      ((0 < s ∧ (b = true ↔ q * (1 + rtol) < k)) ∨ (s < 0 ∧ (b = true ↔ k * (1 + rtol) < q))) := by
+  unfold fwCond at h
+  simp only [bind, Except.bind] at h
+  split at h
+  · cases h
+  · rename_i v hv
+    obtain ⟨net, s, idx⟩ := v
+    simp only at h
+    split at h
+    · cases h
+    · rename_i d hd
+      split at h
+      · cases h
+      · rename_i q hq
+        refine ⟨net, s, idx, d, q, hv, hd, hq, ?_⟩
+        by_cases hs : s > 0
+        · simp only [hs, ↓reduceIte, pure, Except.pure, Except.ok.injEq, Nat.cast_one] at h
+          exact Or.inl ⟨hs, by rw [← h]; simp⟩
+        · by_cases hs' : s < 0
+          · simp only [hs, hs', ↓reduceIte, pure, Except.pure, Except.ok.injEq, Nat.cast_one] at h
+            exact Or.inr ⟨hs', by rw [← h]; simp⟩
+          · simp [hs, hs', throw, throwThe, MonadExceptOf.throw] at h
+
+theorem bwCond_spec (small : α) (phases : List Nat) (r : Rxn) (x : List α) (b : Bool)
+    (h : bwCond small phases r x = .ok b) :
+    ∃ net s idx xi, precipitateStoich phases r = .ok (net, s, idx) ∧ pyIndex x idx = some xi ∧
+      (b = true ↔ small ≤ xi) := by
+  unfold bwCond at h
+  simp only [bind, Except.bind] at h
+  split at h
+  · cases h
+  · rename_i v hv
+    obtain ⟨net, s, idx⟩ := v
+    simp only at h
+    split at h
+    · simp [throw, throwThe, MonadExceptOf.throw] at h
+    · rename_i xi hxi
+      simp only [pure, Except.pure, Except.ok.injEq] at h
+      refine ⟨net, s, idx, xi, hv, hxi, ?_⟩
+      by_cases hlt : xi < small
+      · simp only [hlt, ↓reduceIte] at h
+        simp [← h, hlt]
+      · simp only [hlt, ↓reduceIte] at h
+        simp [← h, not_lt.mp hlt]
+
+theorem mem_zipNotPrecip : ∀ (is : List Nat) (ps : List Bool) (i : Nat),
+    i ∈ zipNotPrecip is ps ↔ ∃ j : Nat, is[j]? = some i ∧ ps[j]? = some false
+  | [], _, i => by simp [zipNotPrecip]
+  | _ :: _, [], i => by simp [zipNotPrecip]
+  | a :: is, p :: ps, i => by
+    have ih := mem_zipNotPrecip is ps i
+    cases p with
+    | true =>
+      simp only [zipNotPrecip, ↓reduceIte, ih]
+      constructor
+      · rintro ⟨j, h1, h2⟩; exact ⟨j + 1, by simpa using h1, by simpa using h2⟩
+      · rintro ⟨j, h1, h2⟩
+        cases j with
+        | zero => simp at h2
+        | succ j => exact ⟨j, by simpa using h1, by simpa using h2⟩
+    | false =>
+      simp only [zipNotPrecip, Bool.false_eq_true, ↓reduceIte, List.mem_cons, ih]
+      constructor
+      · rintro (rfl | ⟨j, h1, h2⟩)
+        · exact ⟨0, by simp, by simp⟩
+        · exact ⟨j + 1, by simpa using h1, by simpa using h2⟩
+      · rintro ⟨j, h1, h2⟩
+        cases j with
+        | zero => left; simpa using h1.symm
+        | succ j => right; exact ⟨j, by simpa using h1, by simpa using h2⟩
+
+theorem dot_extent (rc : α) : ∀ (b c0 : List α) (stoich : List Int), c0.length = stoich.length →
+    dot b (extentState c0 stoich rc) = dot b c0 + rc * dot b (stoich.map fun n => ((n : Int) : α))
+  | [], _, _, _ => by simp [dot]
+  | _ :: _, [], [], _ => by simp [dot, extentState]
+  | _ :: _, [], _ :: _, h => by simp at h
+  | _ :: _, _ :: _, [], h => by simp at h
+  | b :: bs, c :: cs, n :: ns, h => by
+    have ih := dot_extent rc bs cs ns (by simpa using h)
+    simp only [dot, extentState, List.zipWith_cons_cons, List.sum_cons, List.map_cons] at ih ⊢
+    rw [ih]; ring
+
+/-! ### the bracket of the scalar solver -/
+
+theorem listMax_ge (a : α) (l : List α) : a ≤ listMax a l ∧ ∀ b ∈ l, b ≤ listMax a l := by
+  induction l generalizing a with
+  | nil => simp [listMax]
+  | cons b l ih =>
+    simp only [listMax, List.mem_cons, forall_eq_or_imp]
+    obtain ⟨h1, h2⟩ := ih (if a < b then b else a)
+    refine ⟨?_, ?_, h2⟩
+    · by_cases hab : a < b
+      · simp only [hab, ↓reduceIte] at h1 ⊢
+        exact le_trans hab.le h1
+      · simp only [hab, ↓reduceIte] at h1 ⊢
+        exact h1
+    · by_cases hab : a < b
+      · simp only [hab, ↓reduceIte] at h1 ⊢
+        exact h1
+      · simp only [hab, ↓reduceIte] at h1 ⊢
+        exact le_trans (not_lt.mp hab) h1
+
+theorem listMax_mem (a : α) (l : List α) : listMax a l = a ∨ listMax a l ∈ l := by
+  induction l generalizing a with
+  | nil => simp [listMax]
+  | cons b l ih =>
+    simp only [listMax, List.mem_cons]
+    rcases ih (if a < b then b else a) with h | h
+    · by_cases hab : a < b
+      · simp only [hab, ↓reduceIte] at h ⊢
+        exact Or.inr (Or.inl h)
+      · simp only [hab, ↓reduceIte] at h ⊢
+        exact Or.inl h
+    · exact Or.inr (Or.inr h)
+
+theorem rcLimitsGo_spec : ∀ (stoich : List Int) (c0 limits : List α), stoich.length = c0.length →
+    rcLimitsGo stoich c0 = .ok limits →
+    limits.length = stoich.length ∧
+    ∀ j (hs : j < stoich.length) (hc : j < c0.length) (hl : j < limits.length),
+      stoich[j] ≠ 0 ∧ limits[j] = c0[j] / ((stoich[j] : Int) : α)
+  | [], [], limits, _, h => by
+    simp only [rcLimitsGo, pure, Except.pure, Except.ok.injEq] at h
+    subst h; simp
+  | [], _ :: _, _, hl, _ => by simp at hl
+  | _ :: _, [], _, hl, _ => by simp at hl
+  | s :: ss, c :: cs, limits, hl, h => by
+    unfold rcLimitsGo at h
+    by_cases hs0 : s = 0
+    · simp [hs0, throw, throwThe, MonadExceptOf.throw] at h
+    · simp only [hs0, ↓reduceIte, bind, Except.bind] at h
+      split at h
+      · cases h
+      · rename_i rest hrest
+        simp only [pure, Except.pure, Except.ok.injEq] at h
+        subst h
+        obtain ⟨ih1, ih2⟩ := rcLimitsGo_spec ss cs rest (by simpa using hl) hrest
+        refine ⟨by simp [ih1], ?_⟩
+        intro j hs hc hl'
+        cases j with
+        | zero => exact ⟨by simpa using hs0, by simp⟩
+        | succ j =>
+          simpa using ih2 j (by simpa using hs) (by simpa using hc) (by simpa using hl')
+
+/-- everything the Props theorems need about `_get_rc_interval` -/
+theorem getRcInterval_spec (stoich : List Int) (c0 : List α) (lo up : α)
+    (h : getRcInterval stoich c0 = .ok (lo, up)) :
+    ∃ hlen : stoich.length = c0.length, (∀ j (hj : j < stoich.length), stoich[j] ≠ 0) ∧
+      lo ≤ 0 ∧ 0 ≤ up ∧ (lo ≠ 0 ∨ up ≠ 0) ∧
+      (∀ j (hj : j < stoich.length), c0[j]'(hlen ▸ hj) / ((stoich[j] : Int) : α) < 0 →
+        up ≤ -(c0[j]'(hlen ▸ hj) / ((stoich[j] : Int) : α))) ∧
+      (∀ j (hj : j < stoich.length), 0 < c0[j]'(hlen ▸ hj) / ((stoich[j] : Int) : α) →
+        -(c0[j]'(hlen ▸ hj) / ((stoich[j] : Int) : α)) ≤ lo) ∧
+      ((∃ j, ∃ hj : j < stoich.length, c0[j]'(hlen ▸ hj) / ((stoich[j] : Int) : α) < 0) →
+        ∃ j, ∃ hj : j < stoich.length, c0[j]'(hlen ▸ hj) / ((stoich[j] : Int) : α) < 0 ∧
+          up = -(c0[j]'(hlen ▸ hj) / ((stoich[j] : Int) : α))) ∧
+      ((∃ j, ∃ hj : j < stoich.length, 0 < c0[j]'(hlen ▸ hj) / ((stoich[j] : Int) : α)) →
+        ∃ j, ∃ hj : j < stoich.length, 0 < c0[j]'(hlen ▸ hj) / ((stoich[j] : Int) : α) ∧
+          lo = -(c0[j]'(hlen ▸ hj) / ((stoich[j] : Int) : α))) := by
+  unfold getRcInterval at h
+  simp only [bind, Except.bind] at h
+  split at h
+  · cases h
+  · rename_i limits hlim
+    unfold rcLimits at hlim
+    by_cases hlen : stoich.length = c0.length
+    swap
+    · simp [hlen, throw, throwThe, MonadExceptOf.throw] at hlim
+    simp only [hlen, ne_eq, not_true_eq_false, ↓reduceIte] at hlim
+    obtain ⟨hll, hlj⟩ := rcLimitsGo_spec stoich c0 limits hlen hlim
+    -- membership in `limits` <-> an index
+    have mem_limits : ∀ v, v ∈ limits ↔ ∃ j, ∃ hj : j < stoich.length, v = c0[j]'(hlen ▸ hj) / ((stoich[j] : Int) : α) := by
+      intro v
+      constructor
+      · intro hv
+        obtain ⟨j, hj, rfl⟩ := List.getElem_of_mem hv
+        exact ⟨j, by omega, (hlj j (by omega) (by omega) hj).2⟩
+      · rintro ⟨j, hj, rfl⟩
+        rw [← (hlj j hj (by omega) (by omega)).2]
+        exact List.getElem_mem _
+    simp only [Nat.cast_zero] at h
+    -- the two ends
+    generalize hneg : limits.filter (fun l => decide (l < 0)) = neg at h
+    generalize hpos : limits.filter (fun l => decide (0 < l)) = pos at h
+    have hnegmem : ∀ v, v ∈ neg ↔ v ∈ limits ∧ v < 0 := by intro v; rw [← hneg]; simp [List.mem_filter]
+    have hposmem : ∀ v, v ∈ pos ↔ v ∈ limits ∧ 0 < v := by intro v; rw [← hpos]; simp [List.mem_filter]
+    split_ifs at h with hzero
+    simp only [pure, Except.pure, Except.ok.injEq, Prod.mk.injEq] at h
+    obtain ⟨hlo, hup⟩ := h
+    refine ⟨hlen, fun j hj => (hlj j hj (by omega) (by omega)).1, ?_, ?_, ?_, ?_, ?_, ?_, ?_⟩
+    · -- lo ≤ 0
+      rw [← hlo]
+      cases pos with
+      | nil => simp
+      | cons a l =>
+        simp only [neg_nonpos]
+        rcases listMin_mem a l with hm | hm
+        · rw [hm]; exact ((hposmem a).mp (by simp)).2.le
+        · exact ((hposmem _).mp (List.mem_cons_of_mem _ hm)).2.le
+    · -- 0 ≤ up
+      rw [← hup]
+      cases neg with
+      | nil => simp
+      | cons a l =>
+        simp only [neg_nonneg]
+        rcases listMax_mem a l with hm | hm
+        · rw [hm]; exact ((hnegmem a).mp (by simp)).2.le
+        · exact ((hnegmem _).mp (List.mem_cons_of_mem _ hm)).2.le
+    · by_contra hcon
+      push_neg at hcon
+      exact hzero ⟨by rw [hlo]; exact hcon.1, by rw [hup]; exact hcon.2⟩
+    · -- up is below every -limit of a negative limit
+      intro j hj hlt
+      have hv : c0[j]'(hlen ▸ hj) / ((stoich[j] : Int) : α) ∈ neg := (hnegmem _).mpr ⟨(mem_limits _).mpr ⟨j, hj, rfl⟩, hlt⟩
+      rw [← hup]
+      cases neg with
+      | nil => simp at hv
+      | cons a l =>
+        simp only [neg_le_neg_iff]
+        rcases List.mem_cons.mp hv with hv | hv
+        · rw [hv]; exact (listMax_ge a l).1
+        · exact (listMax_ge a l).2 _ hv
+    · intro j hj hgt
+      have hv : c0[j]'(hlen ▸ hj) / ((stoich[j] : Int) : α) ∈ pos := (hposmem _).mpr ⟨(mem_limits _).mpr ⟨j, hj, rfl⟩, hgt⟩
+      rw [← hlo]
+      cases pos with
+      | nil => simp at hv
+      | cons a l =>
+        simp only [neg_le_neg_iff]
+        rcases List.mem_cons.mp hv with hv | hv
+        · rw [hv]; exact (listMin_le a l).1
+        · exact (listMin_le a l).2 _ hv
+    · rintro ⟨j, hj, hlt⟩
+      have hv : c0[j]'(hlen ▸ hj) / ((stoich[j] : Int) : α) ∈ neg := (hnegmem _).mpr ⟨(mem_limits _).mpr ⟨j, hj, rfl⟩, hlt⟩
+      rw [← hup]
+      cases neg with
+      | nil => simp at hv
+      | cons a l =>
+        have hm : listMax a l ∈ a :: l := by
+          rcases listMax_mem a l with hm | hm
+          · rw [hm]; simp
+          · exact List.mem_cons_of_mem _ hm
+        obtain ⟨hml, hm0⟩ := (hnegmem _).mp hm
+        obtain ⟨j', hj', he⟩ := (mem_limits _).mp hml
+        exact ⟨j', hj', he ▸ hm0, by simp only; rw [he]⟩
+    · rintro ⟨j, hj, hgt⟩
+      have hv : c0[j]'(hlen ▸ hj) / ((stoich[j] : Int) : α) ∈ pos := (hposmem _).mpr ⟨(mem_limits _).mpr ⟨j, hj, rfl⟩, hgt⟩
+      rw [← hlo]
+      cases pos with
+      | nil => simp at hv
+      | cons a l =>
+        have hm : listMin a l ∈ a :: l := by
+          rcases listMin_mem a l with hm | hm
+          · rw [hm]; simp
+          · exact List.mem_cons_of_mem _ hm
+        obtain ⟨hml, hm0⟩ := (hposmem _).mp hm
+        obtain ⟨j', hj', he⟩ := (mem_limits _).mp hml
+        exact ⟨j', hj', he ▸ hm0, by simp only; rw [he]⟩
 
 end ChemModel.EqSolve
